@@ -32,6 +32,12 @@ structure SInv (s : St) : Prop where
   /-- what the reader is about to release is not outstanding: an id sent again since the reader's
       snapshot has left `releasing` -/
   rel : ∀ i ∈ s.releasing, i ∉ s.out
+  /-- the sender enters what it fetched into `pending` before it sends it (Extracted.streamerBooksBeforeSend) -/
+  bf : s.bookFirst = true
+  ub : s.unbooked = []
+  /-- an entry of `pending` that is no longer outstanding is either about to be released by the reader
+      or settled in the database with a notification for the refresh goroutine outstanding -/
+  stale : ∀ x ∈ s.pending, x.1 ∉ s.out → x.1 ∈ s.releasing ∨ (x.1 ∈ s.done ∧ s.dirty = true)
 
 /-! ### list facts -/
 
@@ -146,12 +152,13 @@ theorem select_first (b : Int) (hb : 0 < b) (cands : List (Nat × Nat)) :
 /-! ### the invariant -/
 
 theorem SInv.init : SInv {} := by
-  refine ⟨⟨by decide, by decide⟩, by decide, Or.inl (by decide), ?_, ?_, ?_, ?_, rfl, ?_⟩
+  refine ⟨⟨by decide, by decide⟩, by decide, Or.inl (by decide), ?_, ?_, ?_, ?_, rfl, ?_, rfl, rfl, ?_⟩
   · intro i hi; cases hi
   · intro m b strict h; cases h
   · intro h; exact absurd rfl h
   · intro h; cases h
   · intro i hi; cases hi
+  · intro x hx; cases hx
 
 theorem maxFc_ge (a b : Fc) : a.msgs ≤ (maxFc a b).msgs ∧ a.bytes ≤ (maxFc a b).bytes ∧
     b.msgs ≤ (maxFc a b).msgs ∧ b.bytes ≤ (maxFc a b).bytes := by
@@ -162,7 +169,7 @@ theorem SInv.step {s : St} (h : SInv s) (e : Ev) : SInv (step s e) := by
   cases e with
   | setFc m b =>
     obtain ⟨g1, g2, g3, g4⟩ := maxFc_ge s.hi ⟨m, b⟩
-    refine ⟨⟨g3, g4⟩, ?_, ?_, h.out_sub, ?_, h.excl, ?_, h.g, h.rel⟩
+    refine ⟨⟨g3, g4⟩, ?_, ?_, h.out_sub, ?_, h.excl, ?_, h.g, h.rel, h.bf, h.ub, h.stale⟩
     · have := h.count; show (s.pending.length : Int) ≤ (maxFc s.hi ⟨m, b⟩).msgs; omega
     · rcases h.bytes with h1 | h1
       · left; show bytesOf s.pending ≤ (maxFc s.hi ⟨m, b⟩).bytes; omega
@@ -183,7 +190,7 @@ theorem SInv.step {s : St} (h : SInv s) (e : Ev) : SInv (step s e) := by
       · rename_i hw
         split
         · rename_i hcap
-          refine ⟨h.hi_ge, h.count, h.bytes, h.out_sub, ?_, ?_, ?_, h.g, h.rel⟩
+          refine ⟨h.hi_ge, h.count, h.bytes, h.out_sub, ?_, ?_, ?_, h.g, h.rel, h.bf, h.ub, h.stale⟩
           · intro m b strict hb
             simp only [Option.some.injEq, Prod.mk.injEq] at hb
             obtain ⟨hm, hbb, hst⟩ := hb
@@ -210,14 +217,14 @@ theorem SInv.step {s : St} (h : SInv s) (e : Ev) : SInv (step s e) := by
           · intro _; simpa using hw
           · intro hwt; simp only at hwt; rw [hwt] at hw; exact absurd rfl hw
         · rename_i hcap
-          refine ⟨h.hi_ge, h.count, h.bytes, h.out_sub, ?_, ?_, ?_, h.g, h.rel⟩
+          refine ⟨h.hi_ge, h.count, h.bytes, h.out_sub, ?_, ?_, ?_, h.g, h.rel, h.bf, h.ub, h.stale⟩
           · intro m b strict hb; simp only at hb; rw [hbud] at hb; cases hb
           · intro hne; simp only at hne; exact absurd hbud hne
           · intro _ _; exact hcap
   | wake spurious =>
     simp only [Stream.step]
     split
-    · refine ⟨h.hi_ge, h.count, h.bytes, h.out_sub, h.budget, fun _ => rfl, ?_, h.g, h.rel⟩
+    · refine ⟨h.hi_ge, h.count, h.bytes, h.out_sub, h.budget, fun _ => rfl, ?_, h.g, h.rel, h.bf, h.ub, h.stale⟩
       intro hw; cases hw
     · exact h
   | query cands =>
@@ -231,9 +238,33 @@ theorem SInv.step {s : St} (h : SInv s) (e : Ev) : SInv (step s e) := by
         have h2 : (cands.take m).length ≤ m := by simp [List.length_take]; omega
         omega
       have hw : s.waiting = false := h.excl (by rw [hbud]; simp)
-      refine ⟨h.hi_ge, ?_, ?_, ?_, ?_, ?_, ?_, h.g, ?_⟩
-      rotate_right
-      · -- an id sent again leaves `releasing`; the others were not outstanding and are not sent now
+      have hbf := h.bf
+      simp only [hbf, if_true]
+      refine ⟨h.hi_ge, ?count, ?bytes, ?osub, ?budget, ?excl, ?flow, h.g, ?rel, rfl, h.ub, ?stale⟩
+      case stale =>
+        -- entries of messages that are sent (again) are fresh; the others keep their excuse
+        intro x hx hno
+        have hg := h.g
+        simp only [hg, if_true]
+        have hx' : x ∈ insertAll s.pending (select strict b (cands.take m) 0 0) := hx
+        unfold insertAll at hx'
+        rcases List.mem_append.mp hx' with h1 | h1
+        · have h1' := List.mem_filter.mp h1
+          have hns : x.1 ∉ (select strict b (cands.take m) 0 0).map (·.1) := by simpa using h1'.2
+          have hno' : x.1 ∉ s.out := by
+            intro ho
+            apply hno
+            show x.1 ∈ s.out.filter (fun i => !((select strict b (cands.take m) 0 0).map (·.1)).contains i) ++ _
+            exact List.mem_append.mpr (Or.inl (List.mem_filter.mpr ⟨ho, by simpa using hns⟩))
+          rcases h.stale x h1'.1 hno' with hr | hr
+          · left; exact List.mem_filter.mpr ⟨hr, by simpa using hns⟩
+          · right; exact hr
+        · exfalso
+          apply hno
+          show x.1 ∈ s.out.filter _ ++ (select strict b (cands.take m) 0 0).map (·.1)
+          exact List.mem_append.mpr (Or.inr (List.mem_map.mpr ⟨x, h1, rfl⟩))
+      case rel =>
+        -- an id sent again leaves `releasing`; the others were not outstanding and are not sent now
         intro i hi ho
         have hg := h.g
         simp only [hg, if_true] at hi
@@ -276,7 +307,7 @@ theorem SInv.step {s : St} (h : SInv s) (e : Ev) : SInv (step s e) := by
       · intro hne; exact absurd rfl hne
       · intro hwt; simp only at hwt; rw [hw] at hwt; cases hwt
   | fetchEmpty =>
-    refine ⟨h.hi_ge, h.count, h.bytes, h.out_sub, ?_, ?_, ?_, h.g, h.rel⟩
+    refine ⟨h.hi_ge, h.count, h.bytes, h.out_sub, ?_, ?_, ?_, h.g, h.rel, h.bf, h.ub, h.stale⟩
     · intro m b st hb; cases hb
     · intro hne; exact absurd rfl hne
     · intro hwt ht
@@ -286,7 +317,12 @@ theorem SInv.step {s : St} (h : SInv s) (e : Ev) : SInv (step s e) := by
   | settle ids =>
     have hl := removeIds_length_le s.pending ids
     have hb := removeIds_bytes_le s.pending ids
-    refine ⟨h.hi_ge, ?_, ?_, ?_, ?_, h.excl, ?_, h.g, fun i hi ho => h.rel i hi (List.mem_filter.mp ho).1⟩
+    refine ⟨h.hi_ge, ?_, ?_, ?_, ?_, h.excl, ?_, h.g, fun i hi ho => h.rel i hi (List.mem_filter.mp ho).1, h.bf, h.ub, ?_⟩
+    rotate_right
+    · intro x hx hno
+      have hx' := List.mem_filter.mp hx
+      have hni : x.1 ∉ ids := by simpa using hx'.2
+      exact h.stale x hx'.1 (fun ho => hno (List.mem_filter.mpr ⟨ho, by simpa using hni⟩))
     · have := h.count; show ((removeIds s.pending ids).length : Int) ≤ s.hi.msgs; omega
     · rcases h.bytes with h1 | h1
       · left; show bytesOf (removeIds s.pending ids) ≤ s.hi.bytes; omega
@@ -302,11 +338,23 @@ theorem SInv.step {s : St} (h : SInv s) (e : Ev) : SInv (step s e) := by
       · intro hs; show removeIds s.pending ids = []; rw [a3 hs]; rfl
     · intro _ ht; cases ht
   | extSettle ids =>
-    refine ⟨h.hi_ge, h.count, h.bytes, ?_, h.budget, h.excl, h.flow, h.g, fun i hi ho => h.rel i hi (List.mem_filter.mp ho).1⟩
-    intro i hi
-    exact h.out_sub i (List.mem_filter.mp hi).1
+    refine ⟨h.hi_ge, h.count, h.bytes, ?_, h.budget, h.excl, h.flow, h.g, fun i hi ho => h.rel i hi (List.mem_filter.mp ho).1,
+      h.bf, h.ub, ?_⟩
+    · intro i hi
+      exact h.out_sub i (List.mem_filter.mp hi).1
+    · intro x hx hno
+      by_cases ho : x.1 ∈ s.out
+      · right
+        have : x.1 ∈ ids := by
+          apply Classical.byContradiction
+          intro hni
+          exact hno (List.mem_filter.mpr ⟨ho, by simpa using hni⟩)
+        exact ⟨List.mem_append.mpr (Or.inr this), rfl⟩
+      · rcases h.stale x hx ho with hr | hr
+        · left; exact hr
+        · right; exact ⟨List.mem_append.mpr (Or.inl hr.1), rfl⟩
   | settleCommit ids =>
-    refine ⟨h.hi_ge, h.count, h.bytes, ?_, h.budget, h.excl, h.flow, h.g, ?_⟩
+    refine ⟨h.hi_ge, h.count, h.bytes, ?_, h.budget, h.excl, h.flow, h.g, ?_, h.bf, h.ub, ?_⟩
     · intro i hi
       exact h.out_sub i (List.mem_filter.mp hi).1
     · intro i hi ho
@@ -315,10 +363,27 @@ theorem SInv.step {s : St} (h : SInv s) (e : Ev) : SInv (step s e) := by
       · exact h.rel i h1 ho'.1
       · have : i ∈ ids := (List.mem_filter.mp h1).1
         simp [this] at ho'
+    · intro x hx hno
+      by_cases hi : x.1 ∈ ids
+      · left
+        refine List.mem_append.mpr (Or.inr (List.mem_filter.mpr ⟨hi, ?_⟩))
+        simp only [List.contains_iff_mem, List.mem_map]
+        exact ⟨x, hx, rfl⟩
+      · have hno' : x.1 ∉ s.out := fun ho => hno (List.mem_filter.mpr ⟨ho, by simpa using hi⟩)
+        rcases h.stale x hx hno' with hr | hr
+        · left; exact List.mem_append.mpr (Or.inl hr)
+        · right; exact hr
   | settleBook =>
     have hl := removeIds_length_le s.pending s.releasing
     have hb := removeIds_bytes_le s.pending s.releasing
-    refine ⟨h.hi_ge, ?_, ?_, ?_, ?_, h.excl, ?_, h.g, ?_⟩
+    refine ⟨h.hi_ge, ?_, ?_, ?_, ?_, h.excl, ?_, h.g, ?_, h.bf, h.ub, ?_⟩
+    rotate_right
+    · intro x hx hno
+      have hx' := List.mem_filter.mp hx
+      have hnr : x.1 ∉ s.releasing := by simpa using hx'.2
+      rcases h.stale x hx'.1 hno with hr | hr
+      · exact absurd hr hnr
+      · right; exact hr
     · have := h.count; show ((removeIds s.pending s.releasing).length : Int) ≤ s.hi.msgs; omega
     · rcases h.bytes with h1 | h1
       · left; show bytesOf (removeIds s.pending s.releasing) ≤ s.hi.bytes; omega
@@ -333,11 +398,11 @@ theorem SInv.step {s : St} (h : SInv s) (e : Ev) : SInv (step s e) := by
       · intro hs; show removeIds s.pending s.releasing = []; rw [a3 hs]; rfl
     · intro _ ht; cases ht
     · intro i hi; cases hi
-  | refresh gone =>
+  | refresh =>
     simp only [Stream.step]
-    have hl := removeIds_length_le s.pending (gone.filter (fun i => !s.out.contains i))
-    have hb := removeIds_bytes_le s.pending (gone.filter (fun i => !s.out.contains i))
-    refine ⟨h.hi_ge, ?_, ?_, ?_, ?_, h.excl, ?_, h.g, h.rel⟩
+    have hl := removeIds_length_le s.pending (s.done.filter (fun i => !s.out.contains i))
+    have hb := removeIds_bytes_le s.pending (s.done.filter (fun i => !s.out.contains i))
+    refine ⟨h.hi_ge, ?_, ?_, ?_, ?_, h.excl, ?_, h.g, h.rel, h.bf, h.ub, ?_⟩
     · have := h.count; show ((removeIds s.pending _).length : Int) ≤ s.hi.msgs; omega
     · rcases h.bytes with h1 | h1
       · left; show bytesOf (removeIds s.pending _) ≤ s.hi.bytes; omega
@@ -357,6 +422,25 @@ theorem SInv.step {s : St} (h : SInv s) (e : Ev) : SInv (step s e) := by
       simp only [Bool.or_eq_false_iff] at ht
       rw [removeIds_noop _ _ ht.2]
       exact h.flow hwt ht.1
+    · -- what was settled in the database has been dropped: the rest keeps the reader's excuse
+      intro x hx hno
+      have hx' := List.mem_filter.mp hx
+      have hng : x.1 ∉ s.done.filter (fun i => !s.out.contains i) := by
+        intro hm
+        have h2 := hx'.2
+        rw [List.contains_iff_mem.mpr hm] at h2
+        cases h2
+      rcases h.stale x hx'.1 hno with hr | hr
+      · left; exact hr
+      · exfalso
+        exact hng (List.mem_filter.mpr ⟨hr.1, by simpa using hno⟩)
+  | lateBook =>
+    have hub := h.ub
+    have hp : insertAll s.pending s.unbooked = s.pending := by
+      rw [hub]; unfold insertAll removeIds
+      simp
+    simp only [Stream.step, hp]
+    exact ⟨h.hi_ge, h.count, h.bytes, h.out_sub, h.budget, h.excl, h.flow, h.g, h.rel, h.bf, rfl, h.stale⟩
 
 theorem SInv.run {s : St} (h : SInv s) (evs : List Ev) : SInv (run s evs) := by
   induction evs generalizing s with
@@ -422,7 +506,7 @@ theorem C11_reader_releases_guarded :
   refine ⟨?_, ?_, ?_⟩
   · intro r hr; simp [Extracted.streamerReaderReleases] at hr; exact hr
   · simp [Extracted.streamerReaderReleases]
-  · simp [St.ofSource, Extracted.streamerReaderReleases]
+  · simp [St.ofSource, Extracted.streamerReaderReleases, Extracted.streamerBooksBeforeSend]
 
 /-- limits 2 messages: m1 is sent, nacked on the stream (commit), fetched and sent again before the
     reader updates the map, then m2 and m3 arrive.  An unguarded reader forgets the re-sent m1:
@@ -436,6 +520,57 @@ theorem C11_unguarded_release_breaks_bound :
 /-- the two halves in direct succession are the atomic `settle` (as far as the sender can tell) -/
 example : (run {} [.setFc 2 10, .loop, .query [(1, 4), (3, 5)], .settleCommit [1], .settleBook]).pending =
     (run {} [.setFc 2 10, .loop, .query [(1, 4), (3, 5)], .settle [1]]).pending := by decide
+
+/-! ### what the streamer holds as pending is what is outstanding
+
+`C11_no_missed_capacity` speaks about `pending`, the streamer's own book.  The book can lag behind
+the truth — an Acknowledge made outside the stream, the reader between its COMMIT and its update —
+but only while something is on its way to correct it: -/
+
+/-- **C11 (the book converges)**: after any sequence of events, an entry of `pending` whose message
+    is no longer outstanding is about to be released by the reader, or is settled in the database
+    with a notification for the refresh goroutine outstanding. -/
+theorem C11_stale_entries_are_excused (evs : List Ev) :
+    let s := run {} evs
+    ∀ x ∈ s.pending, x.1 ∉ s.out → x.1 ∈ s.releasing ∨ (x.1 ∈ s.done ∧ s.dirty = true) := by
+  intro s
+  exact (SInv.init.run evs).stale
+
+/-- **C11 (no stall)**: after any sequence of events, when the reader is idle, no notification for the
+    refresh goroutine is outstanding, and the sender sleeps in its flow-control wait without a wake
+    token, the limits are used up by messages that are really outstanding: every entry counted
+    against the limits is sent and neither acknowledged, nacked nor expired. -/
+theorem C11_no_stall (evs : List Ev) :
+    let s := run {} evs
+    s.releasing = [] → s.dirty = false → s.waiting = true → s.token = false →
+      (∀ x ∈ s.pending, x.1 ∈ s.out) ∧
+      ¬ (0 < s.fc.bytes - bytesOf s.pending ∧ 0 < s.fc.msgs - s.pending.length) := by
+  intro s hrel hdirty hw ht
+  have h := SInv.init.run evs
+  refine ⟨?_, h.flow hw ht⟩
+  intro x hx
+  apply Classical.byContradiction
+  intro hno
+  rcases h.stale x hx hno with hr | hr
+  · rw [hrel] at hr; cases hr
+  · rw [hdirty] at hr; cases hr.2
+
+/-- the source's sender has the book-first shape -/
+theorem C11_sender_books_before_send :
+    (∀ r ∈ Extracted.streamerBooksBeforeSend, r = "book-first") ∧ Extracted.streamerBooksBeforeSend ≠ [] := by
+  refine ⟨?_, ?_⟩
+  · intro r hr
+    simp only [Extracted.streamerBooksBeforeSend, List.mem_cons, List.mem_nil_iff, or_false, or_self] at hr
+    exact hr
+  · simp [Extracted.streamerBooksBeforeSend]
+
+/-- a sender that sends first: the client acknowledges m1 (outside the stream) before the sender has
+    entered it into its book; the refresh goroutine finds nothing to drop; the late entry then stays,
+    with nothing on its way to remove it — the stream believes its one slot is taken for ever -/
+theorem C11_send_first_variant_stalls :
+    let s := run { bookFirst := false } [Ev.setFc 1 1000, .loop, .query [(1, 14)], .extSettle [1], .refresh, .lateBook, .loop, .wake false, .loop]
+    s.pending = [(1, 14)] ∧ s.out = [] ∧ s.dirty = false ∧ s.releasing = [] ∧ s.waiting = true ∧ s.token = false := by
+  decide
 
 /-- non-vacuity: limits 3 messages / 10 bytes; 3 candidates of 4, 8 and 5 bytes: the first and the
     third are sent, 8 does not fit; with limit 2 the sender then blocks; an ack leaves a token -/
